@@ -1,7 +1,7 @@
 CONSTANT MaxCalls = 0
 CONSTANT MaxSize = 5
 CONSTANT PoolN = 12
-CONSTANT GenStride = 3
+CONSTANT GenStride = 15
 SPECIFICATION GenSpec
 INVARIANT PrintReplay
 CHECK_DEADLOCK FALSE
